@@ -241,6 +241,20 @@ class BrittleEdge(UnDirectedEdge):
         super().add_vertex(new)
 
 
+class NestingEdge(DirectedEdge):
+    """
+    An edge that carries a small random graph of its own as a detail: its
+    __init__ calls randgraph -- possibly while an outer randgraph call is in the
+    middle of creating its links (re-entrancy through user code).
+    """
+
+    def __init__(self, v1=None, v2=None, *, uid=None, attributes=None):
+        super().__init__(v1, v2, uid=uid, attributes=attributes)
+        from edgegraph.builder import randgraph
+
+        self.detail = randgraph.randgraph(count=3)
+
+
 class SubDirected(DirectedEdge):
     """A subclass of DirectedEdge."""
 
@@ -372,6 +386,7 @@ EDGE_CLASSES = {
     "BondEdge": BondEdge,
     "LabelledEdge": LabelledEdge,
     "BrittleEdge": BrittleEdge,
+    "NestingEdge": NestingEdge,
 }
 ALL_CLASSES = dict(VERTEX_CLASSES)
 ALL_CLASSES.update(UNIVERSE_CLASSES)
